@@ -157,7 +157,7 @@ func scenRoundTrip(r *Run, job *Job, prop string) {
 		}
 		p.cliCtx = drawCtx(t, rng)
 		if t.Chance(1, 3) {
-			p.trace = fmt.Sprintf("Root=1-5b3cc918-%024d", i+1)
+			p.trace = DrawTrace(t, i+1)
 		}
 		p.payload = genBytes(rng, p.evClass, p.evSize, tag)
 		if p.mode == "oversize" && prop == "C01" {
